@@ -97,53 +97,7 @@ def run(c, chk):
                    'spec/terminators.allow.json, spec/recursion.allow.json (reasons reviewed by hand)']
     chk.assumptions = ['one build configuration (this config.h)', 'user callbacks do not terminate the process',
                        'general memory safety (bounds, lifetime) is not decided by this check']
-    lex = c.lex
-    dfa = lex.dfa
-    chk.analysed = {'units': 2, 'functions': len(c.confuse.funcs) + len(c.lexer.funcs), 'dfa_states': dfa.nstates,
-                    'lexer_rules': dfa.num_rules}
-
-    # ---- R2.1a ---------------------------------------------------------------
-    selftest_echo(chk)
-    for scname in sorted(dfa.sc, key=lambda n: dfa.sc[n]):
-        fr = dfa.firing_rules(scname)
-        nstates = len(dfa.reachable(scname))
-        if dfa.default_rule in fr:
-            w = fr[dfa.default_rule]
-            chk.fail('R2.1a', 'default-rule:%s' % scname, 'src/lexer.l:<%s>' % scname,
-                     'start condition <%s> has no rule for input %r: flex echoes it to stdout' % (scname, w),
-                     witness=['shortest input reaching the default rule in <%s>: %r' % (scname, w),
-                              'rules that can fire here: %s' % sorted(r for r in fr if r != dfa.default_rule)])
-        else:
-            chk.ok('R2.1a', '<%s>' % scname, '%d DFA states reachable, %d rules can fire, default rule unreachable'
-                   % (nstates, len(fr)), sample=True)
-
-    # ---- R2.1b ---------------------------------------------------------------
-    default_blocks = set()
-    fn = lex.fn
-    lbl = lex.case_block.get(dfa.default_rule)
-    if lbl:
-        default_blocks = _cfg.reachable(fn, lbl, avoid=set(lex.stop) | {lex.switch.block.label})
-    nsites = 0
-    for f in c.all_funcs():
-        for call in f.calls():
-            n = call.callee_name()
-            if n in STDOUT_WRITERS:
-                nsites += 1
-                chk.fail('R2.1b', '%s:%s' % (f.name, n), c.where(call), '%s() calls %s(), which writes to standard output' % (f.name, n))
-            elif n in STREAM_WRITERS:
-                nsites += 1
-                k = STREAM_WRITERS[n]
-                org = stream_origin(f, call.args[k]) if k < len(call.args) else 'other'
-                if org in ('@stdout', '@cfg_yyout'):
-                    if f is fn and call.block.label in default_blocks:
-                        chk.ok('R2.1b', '%s:%s' % (c.where(call), n), 'the flex default action itself (dead by R2.1a)', nontrivial=False)
-                    else:
-                        chk.fail('R2.1b', '%s:%s:%s' % (f.name, n, org), c.where(call),
-                                 '%s() writes to %s through %s()' % (f.name, org[1:], n))
-                else:
-                    chk.ok('R2.1b', '%s:%s' % (c.where(call), n), 'stream is %s' % org.lstrip('@'))
-    chk.floor('R2.1b stream-writer call sites', nsites, 12)
-
+    # (R2.2 comes first: it needs the call graph only, not the scanner automaton)
     # ---- R2.2 ----------------------------------------------------------------
     allow = load_allow('terminators.allow.json')
     cg = c.callgraph
@@ -196,6 +150,53 @@ def run(c, chk):
                                  'scanner function %s() exits the process with %r' % (f.name, msg),
                                  witness=['call chain: ' + ' -> '.join(chain or [f.name]) + ' -> yy_fatal_error -> exit'])
     chk.floor('R2.2 reachable terminator sites', nterm, 5)
+
+    lex = c.lex
+    dfa = lex.dfa
+    chk.analysed = {'units': 2, 'functions': len(c.confuse.funcs) + len(c.lexer.funcs), 'dfa_states': dfa.nstates,
+                    'lexer_rules': dfa.num_rules}
+
+    # ---- R2.1a ---------------------------------------------------------------
+    selftest_echo(chk)
+    for scname in sorted(dfa.sc, key=lambda n: dfa.sc[n]):
+        fr = dfa.firing_rules(scname)
+        nstates = len(dfa.reachable(scname))
+        if dfa.default_rule in fr:
+            w = fr[dfa.default_rule]
+            chk.fail('R2.1a', 'default-rule:%s' % scname, 'src/lexer.l:<%s>' % scname,
+                     'start condition <%s> has no rule for input %r: flex echoes it to stdout' % (scname, w),
+                     witness=['shortest input reaching the default rule in <%s>: %r' % (scname, w),
+                              'rules that can fire here: %s' % sorted(r for r in fr if r != dfa.default_rule)])
+        else:
+            chk.ok('R2.1a', '<%s>' % scname, '%d DFA states reachable, %d rules can fire, default rule unreachable'
+                   % (nstates, len(fr)), sample=True)
+
+    # ---- R2.1b ---------------------------------------------------------------
+    default_blocks = set()
+    fn = lex.fn
+    lbl = lex.case_block.get(dfa.default_rule)
+    if lbl:
+        default_blocks = _cfg.reachable(fn, lbl, avoid=set(lex.stop) | {lex.switch.block.label})
+    nsites = 0
+    for f in c.all_funcs():
+        for call in f.calls():
+            n = call.callee_name()
+            if n in STDOUT_WRITERS:
+                nsites += 1
+                chk.fail('R2.1b', '%s:%s' % (f.name, n), c.where(call), '%s() calls %s(), which writes to standard output' % (f.name, n))
+            elif n in STREAM_WRITERS:
+                nsites += 1
+                k = STREAM_WRITERS[n]
+                org = stream_origin(f, call.args[k]) if k < len(call.args) else 'other'
+                if org in ('@stdout', '@cfg_yyout'):
+                    if f is fn and call.block.label in default_blocks:
+                        chk.ok('R2.1b', '%s:%s' % (c.where(call), n), 'the flex default action itself (dead by R2.1a)', nontrivial=False)
+                    else:
+                        chk.fail('R2.1b', '%s:%s:%s' % (f.name, n, org), c.where(call),
+                                 '%s() writes to %s through %s()' % (f.name, org[1:], n))
+                else:
+                    chk.ok('R2.1b', '%s:%s' % (c.where(call), n), 'stream is %s' % org.lstrip('@'))
+    chk.floor('R2.1b stream-writer call sites', nsites, 12)
 
     # ---- R2.3 ----------------------------------------------------------------
     rallow = load_allow('recursion.allow.json')
@@ -286,6 +287,12 @@ def run(c, chk):
         _c13.run(c, sub)
         sub.done('include stack bound')
     slot_width(c, chk)
+    # R2.14: a 7-bit scanner indexes past its table rows for every byte >= 0x80 (the rule of C03 R3.8)
+    from . import c03 as _c03
+    _c03.byte_table_width(c, chk, rid='R2.14')
+    # R2.15: a cached pointer into a reallocatable option table is read after the table moved (use after free driven by the input)
+    from . import c07 as _c07t
+    _c07t.table_pointers_not_kept(c, chk, rid='R2.15')
 
     # ---- R2.7: the parse loop never releases the same object twice / keeps a released one ----
     chk.rule('R2.7', 'the parser loop never keeps a pointer it has released for a later iteration (no double free / use after free on input)')
